@@ -31,6 +31,11 @@ func main() {
 	r.Assume("a sequence returned by All() may be kept: whenever it is run to the end while no operation changes the list, it yields the values the list holds front-to-back at that time (not at the time All() was called), any number of times and re-entrantly; the yield functions of the harness never modify a list")
 	opt := ev.Opt{HangViolation: true, MaxCaseSeconds: 120}
 	r.Cases("dlist/mix", r.N(30000, 1500000), opt, dlistMix)
+	// the same workload on parallel workers under the race detector: package-level state shared
+	// between instances that no goroutine shares is reported from the happens-before relation,
+	// whether or not the accesses collide in this run (and however loaded the machine is)
+	r.CasesProc("dlist/mix/race-parallel", r.N(600, 15000), ev.Opt{Bin: "race", Procs: 2, Workers: 8, AlwaysLog: true, HangViolation: true, MaxCaseSeconds: 120}, dlistMix)
+	r.CasesProc("slist/mix/race-parallel", r.N(600, 15000), ev.Opt{Bin: "race", Procs: 2, Workers: 8, AlwaysLog: true, HangViolation: true, MaxCaseSeconds: 120}, slistMix)
 	r.Cases("dlist/copy", r.N(6000, 300000), opt, dlistCopy)
 	r.Cases("dlist/small", r.N(1200, 40000), opt, dlistSmall)
 	r.Cases("slist/mix", r.N(30000, 1500000), opt, slistMix)
